@@ -11,7 +11,7 @@ def obligations(tier):
     B = (False, True)
     for d in B:
         for u in B:
-            for pre, k, sl, rl in ([(0, 2, 1, 2), (0, 3, 1, 1), (1, 2, 1, 3), (2, 2, 1, 2), (3, 2, 1, 2), (4, 2, 1, 3), (5, 2, 1, 2), (6, 2, 2, 1)] if q else
-                                   [(0, 2, 2, 3), (0, 3, 1, 2), (0, 4, 1, 1), (1, 2, 2, 4), (1, 3, 1, 3), (2, 3, 1, 2), (3, 3, 1, 2), (4, 2, 2, 4), (4, 3, 1, 3), (5, 3, 1, 2), (6, 2, 2, 2), (6, 3, 2, 1)]):
+            for pre, k, sl, rl in ([(0, 2, 1, 2), (0, 3, 1, 1), (1, 2, 1, 3), (2, 2, 1, 2), (3, 2, 1, 2), (4, 2, 1, 3), (5, 2, 1, 2)] if q else
+                                   [(0, 2, 2, 3), (0, 3, 1, 2), (0, 4, 1, 1), (1, 2, 2, 4), (1, 3, 1, 3), (2, 3, 1, 2), (3, 3, 1, 2), (4, 2, 2, 4), (4, 3, 1, 3), (5, 3, 1, 2), (6, 2, 2, 1)]):
                 L.append(ob("seq/pre=%d/k=%d/str=%d/raw=%d/dup=%d/utf8=%d" % (pre, k, sl, rl, d, u), "jsontext", "VerifC06Seq", [pre, k, sl, rl, d, u], covers=["accepted", "rejected"]))
     return L
